@@ -141,6 +141,32 @@ def _join(sep, arg, env):
     """sep.join(<list expr>): list literal (+ list var)*"""
     if isinstance(arg, ast.Name) and arg.id in env and env[arg.id] and env[arg.id][0][0] == "listvar":
         return join_entries(sep, env[arg.id][0][1], arg)
+    if isinstance(arg, (ast.GeneratorExp, ast.ListComp)) and len(arg.generators) == 1 and not arg.generators[0].ifs and isinstance(arg.generators[0].target, ast.Name):
+        # sep.join(f(x) for x in L) over a list literal / a local list of known items: one f(item) per item
+        src = arg.generators[0].iter
+        items = None
+        if isinstance(src, (ast.List, ast.Tuple)):
+            items = list(src.elts)
+        elif isinstance(src, ast.Name) and src.id in env and env[src.id] and env[src.id][0][0] == "listvar" and all(e[0] == "item" and len(e) == 3 for e in env[src.id][0][1]):
+            items = [e[2] for e in env[src.id][0][1]]
+        if items is not None:
+            import copy
+
+            class S(ast.NodeTransformer):
+                def __init__(self, name, repl):
+                    self.name, self.repl = name, repl
+
+                def visit_Name(self, node):
+                    if node.id == self.name and isinstance(node.ctx, ast.Load):
+                        return copy.deepcopy(self.repl)
+                    return node
+
+            ents = []
+            for it in items:
+                e2 = S(arg.generators[0].target.id, it).visit(copy.deepcopy(arg.elt))
+                ast.fix_missing_locations(e2)
+                ents.append(("item", of_expr(e2, env), e2))
+            return join_entries(sep, ents, arg)
     items = _list_items(arg)
     if items is None:
         return [("hole", ast.Call(func=ast.Attribute(value=ast.Constant(sep), attr="join", ctx=ast.Load()), args=[arg], keywords=[]), "")]
@@ -296,7 +322,7 @@ class Builder:
 
     def _list_entries(self, e):
         if isinstance(e, (ast.List, ast.Tuple)):
-            return [("item", of_expr(x, self._env())) for x in e.elts]
+            return [("item", of_expr(x, self._env()), x) for x in e.elts]
         if isinstance(e, (ast.ListComp, ast.GeneratorExp)):
             return [comp_entry(e)]
         return None
@@ -315,7 +341,7 @@ class Builder:
             cur = self.env.get(v)
             if cur and cur[0][0] == "listvar":
                 if st.value.func.attr == "append":
-                    cur[0][1].append(("item", of_expr(st.value.args[0], self._env())))
+                    cur[0][1].append(("item", of_expr(st.value.args[0], self._env()), st.value.args[0]))
                 else:
                     ents = self._list_entries(st.value.args[0])
                     cur[0][1].extend(ents if ents is not None else [("rep", [("opaque", st.value.args[0])], None)])
